@@ -1,8 +1,8 @@
-(* C08 -- property theorems only.  Bodies live in Proofs.v / Code.v.
+(* C08 -- property theorems only.  Bodies live in Proofs.v / Code.v / SrcProofs.v / FProofs.v / Cond.v / Final.v.
    Angles are in radians inside [true_sep]; [from_rad uout] converts to the requested unit. *)
 From Coq Require Import Reals Lra QArith Qreals List.
 From Coq Require PrimFloat.
-From EsVerif.C08 Require Import Gen Model Spec Proofs Code SrcLib Src SrcProofs SrcLibF SrcF FProofs Cond.
+From EsVerif.C08 Require Import Gen Model Spec Proofs Code SrcLib Src SrcProofs SrcLibF SrcF FProofs Cond Final.
 Open Scope R_scope.
 
 (* The two formulas of the chord-based function are the great-circle angle of unit vectors. *)
@@ -28,7 +28,7 @@ Proof. exact gcirc_exact. Qed.
 
 (* The constants found in the source of the tree under check satisfy those side conditions ... *)
 Theorem C08_code_constants : 2 <= sphdist_thr /\ gcirc_clip_lo <= -1 /\ 1 <= gcirc_clip_hi.
-Proof. split; [exact sphdist_thr_ok | exact gcirc_clip_ok]. Qed.
+Proof. exact code_constants_thm. Qed.
 
 (* ... hence the model with the code's constants is exact. *)
 Theorem C08_sphdist_code_exact : forall uin uout ra1 dec1 ra2 dec2,
@@ -47,10 +47,7 @@ Theorem C08_source_is_model :
   /\ (forall uin uout ra1 dec1 ra2 dec2,
         sphdist_src uin uout ra1 dec1 ra2 dec2 = sphdist_code uin uout ra1 dec1 ra2 dec2)
   /\ (forall ra1 dec1 ra2 dec2, gcirc_src ra1 dec1 ra2 dec2 = gcirc_code ra1 dec1 ra2 dec2).
-Proof.
-  split; [exact thetaphi2xyz_src_eq|]. split; [exact eq2xyz_src_eq|].
-  split; [exact sphdist_src_eq | exact gcirc_src_eq].
-Qed.
+Proof. exact source_is_model_thm. Qed.
 
 (* ... hence the source formulas return the true great-circle angle for all real inputs, and the
    vectors they are computed from are unit vectors. *)
@@ -59,39 +56,31 @@ Theorem C08_source_exact :
      sphdist_src uin uout ra1 dec1 ra2 dec2 = from_rad uout (true_sep uin ra1 dec1 ra2 dec2))
   /\ (forall ra1 dec1 ra2 dec2, gcirc_src ra1 dec1 ra2 dec2 = true_sep Deg ra1 dec1 ra2 dec2)
   /\ (forall u ra dec, is_unit (eq2xyz_src u ra dec)).
-Proof. split; [exact sphdist_src_exact|]. split; [exact gcirc_src_exact | exact eq2xyz_src_unit]. Qed.
+Proof. exact source_exact_thm. Qed.
 
 (* Range: [0,180] degrees, i.e. [0,PI] when radians are requested. *)
 Theorem C08_range : forall uin ra1 dec1 ra2 dec2,
   0 <= sphdist_code uin Deg ra1 dec1 ra2 dec2 <= 180
   /\ 0 <= sphdist_code uin Rad ra1 dec1 ra2 dec2 <= PI
   /\ 0 <= gcirc_code ra1 dec1 ra2 dec2 <= PI.
-Proof.
-  intros. split; [apply sphdist_range_deg, sphdist_thr_ok|].
-  split; [apply sphdist_range_rad, sphdist_thr_ok|]. rewrite gcirc_code_exact. apply true_sep_range.
-Qed.
+Proof. exact range_thm. Qed.
 
 (* Symmetry in the two points. *)
 Theorem C08_sym : forall uin uout ra1 dec1 ra2 dec2,
   sphdist_code uin uout ra1 dec1 ra2 dec2 = sphdist_code uin uout ra2 dec2 ra1 dec1
   /\ gcirc_code ra1 dec1 ra2 dec2 = gcirc_code ra2 dec2 ra1 dec1.
-Proof.
-  intros. rewrite !sphdist_code_exact, !gcirc_code_exact. simpl.
-  rewrite (true_sep_sym uin), (true_sep_sym Deg). split; reflexivity.
-Qed.
+Proof. exact sym_thm. Qed.
 
 (* Zero exactly when the two inputs denote the same point of the sphere; in particular for
    identical inputs. *)
 Theorem C08_zero_iff : forall uin uout ra1 dec1 ra2 dec2,
   sphdist_code uin uout ra1 dec1 ra2 dec2 = 0 <->
   point (to_rad uin ra1) (to_rad uin dec1) = point (to_rad uin ra2) (to_rad uin dec2).
-Proof. intros. apply sphdist_zero_iff, sphdist_thr_ok. Qed.
+Proof. exact zero_iff_thm. Qed.
 
 Theorem C08_zero_identical : forall uin uout ra dec,
   sphdist_code uin uout ra dec ra dec = 0 /\ gcirc_code ra dec ra dec = 0.
-Proof.
-  intros. rewrite sphdist_code_exact, gcirc_code_exact, !true_sep_same. split; [apply from_rad_0 | reflexivity].
-Qed.
+Proof. exact zero_identical_thm. Qed.
 
 (* Adding a full turn (360 degrees; 2 PI when the input unit is radians) to either longitude
    changes nothing. *)
@@ -101,18 +90,7 @@ Theorem C08_period : forall uin uout ra1 dec1 ra2 dec2,
   /\ sphdist_code uin uout ra1 dec1 (ra2 + turn) dec2 = sphdist_code uin uout ra1 dec1 ra2 dec2
   /\ gcirc_code (ra1 + 360) dec1 ra2 dec2 = gcirc_code ra1 dec1 ra2 dec2
   /\ gcirc_code ra1 dec1 (ra2 + 360) dec2 = gcirc_code ra1 dec1 ra2 dec2.
-Proof.
-  intros uin uout ra1 dec1 ra2 dec2 turn.
-  assert (P1 : forall u a b c d,
-             true_sep u (a + match u with Deg => 360 | Rad => 2 * PI end) b c d = true_sep u a b c d)
-    by (intros; apply true_sep_period).
-  assert (P2 : forall u a b c d,
-             true_sep u a b (c + match u with Deg => 360 | Rad => 2 * PI end) d = true_sep u a b c d)
-    by (intros; rewrite true_sep_sym, P1; apply true_sep_sym).
-  pose proof (P1 Deg) as P1d. pose proof (P2 Deg) as P2d. cbv beta iota in P1d, P2d.
-  rewrite !sphdist_code_exact, !gcirc_code_exact. unfold turn.
-  rewrite P1, P2, P1d, P2d. repeat split; reflexivity.
-Qed.
+Proof. exact period_thm. Qed.
 
 (* What a per-case certificate (generated lemma [sep_ok ...] closed by interval through the
    half-angle forms below) says about the model: the implementation's output is within the
@@ -120,21 +98,21 @@ Qed.
 Theorem C08_certificate_forms : forall u ra1 dec1 ra2 dec2,
   (0 < dplus u ra1 dec1 ra2 dec2 -> true_sep u ra1 dec1 ra2 dec2 = sep_small u ra1 dec1 ra2 dec2)
   /\ (0 < dminus u ra1 dec1 ra2 dec2 -> true_sep u ra1 dec1 ra2 dec2 = sep_large u ra1 dec1 ra2 dec2).
-Proof. intros. split; [apply true_sep_small | apply true_sep_large]. Qed.
+Proof. exact certificate_forms_thm. Qed.
 
 Theorem C08_certificate_ties_model :
   (forall uin uout tol ra1 dec1 ra2 dec2 out,
      sep_ok uin uout tol ra1 dec1 ra2 dec2 out -> sphdist_cert uin uout tol ra1 dec1 ra2 dec2 out)
   /\ (forall tol ra1 dec1 ra2 dec2 out,
      sep_ok Deg Rad tol ra1 dec1 ra2 dec2 out -> gcirc_cert tol ra1 dec1 ra2 dec2 out).
-Proof. split; [exact sphdist_cert_intro | exact gcirc_cert_intro]. Qed.
+Proof. exact certificate_ties_model_thm. Qed.
 
 Theorem C08_certificate_ties_source :
   (forall uin uout tol ra1 dec1 ra2 dec2 out,
      sep_ok uin uout tol ra1 dec1 ra2 dec2 out -> sphdist_src_cert uin uout tol ra1 dec1 ra2 dec2 out)
   /\ (forall tol ra1 dec1 ra2 dec2 out,
      sep_ok Deg Rad tol ra1 dec1 ra2 dec2 out -> gcirc_src_cert tol ra1 dec1 ra2 dec2 out).
-Proof. split; [exact sphdist_src_cert_intro | exact gcirc_src_cert_intro]. Qed.
+Proof. exact certificate_ties_source_thm. Qed.
 
 (* Soundness of the exact-rational checkers run on the implementation's outputs. *)
 Theorem C08_checkers_sound :
@@ -143,10 +121,7 @@ Theorem C08_checkers_sound :
   /\ (forall tol a b, all_close tol a b = true -> Forall2 (fun x y => Rabs (Q2R x - Q2R y) <= Q2R tol) a b)
   /\ (forall t a b tol, Rabs (a - t) <= tol -> Rabs (b - t) <= tol -> Rabs (a - b) <= 2 * tol)
   /\ Q2R pi_lo < PI < Q2R pi_hi.
-Proof.
-  split; [exact outs_ok_sound|]. split; [exact all_same_sound|]. split; [exact all_close_sound|].
-  split; [exact shift_triangle|]. split; [exact pi_lo_lt_PI | exact PI_lt_pi_hi].
-Qed.
+Proof. exact checkers_sound_thm. Qed.
 
 (* Binary64 reading of the source text (SrcF.v, same translation with IEEE operations and arbitrary libm
    oracles O): identical inputs give exactly +0, whatever the rounding and whatever sin/cos/arcsin/arccos
@@ -156,7 +131,7 @@ Theorem C08_float_zero_identical :
      sphdist_f O uin uout ra dec ra dec = PrimFloat.zero)
   /\ (forall O ra dec, PrimFloat.is_nan (d2r_f ra) = false -> PrimFloat.is_nan (d2r_f dec) = false ->
      gcirc_f O ra dec ra dec = PrimFloat.zero).
-Proof. split; [exact sphdist_f_identical | exact gcirc_f_identical]. Qed.
+Proof. exact float_zero_identical_thm. Qed.
 
 (* Conditioning of the cosine formula: an error e in cosdis moves the angle by at most
    2 asin (sqrt (e/2)), attained next to cosdis = 1.  Hence 6e-16 (2.7 ulp of 1) costs at most the
